@@ -1,7 +1,8 @@
 """C02 — every generated scene satisfies all of its requirements.
 
 Generated multi-object programs (collision clusters, containers, workspaces, user predicates,
-visibility "theatres" with walls) are compiled once and sampled repeatedly on the same Scenario
+visibility "theatres" with walls, objects pinned at a constant position with a random pose or
+size next to their container's boundary) are compiled once and sampled repeatedly on the same Scenario
 object; `time.perf_counter` as seen by scenic.core.sample_checking is replaced by a generated
 sequence so that the requirement re-ordering of the WeightedAcceptanceChecker is an input.
 Every returned scene is re-verified independently: user predicates in plain Python, pairwise
@@ -34,7 +35,12 @@ RULE = ("Hypothesis-generated programs: 1–3 groups placed 40 m apart, each a c
         "regions: box / spheroid / polycube mesh / footprint with holes) or a visibility theatre "
         "(viewer Point / OrientedPoint / ego with view angles and visible distance, an occluding "
         "or non-occluding wall, a target with `visible from`, `not visible from` or "
-        "requireVisible); optional 3D or polygonal workspace; 0–3 hard/soft user predicates over "
+        "requireVisible; one wall in three of the `visible` kind is a long one whose centre is farther "
+        "from the viewer than the target while its near end crosses the lines of sight, sideways or "
+        "upwards) or a pinned object (constant position, random yaw / pitch / roll / width / length "
+        "/ height, next to one face of its box / spheroid / footprint / polygon container or of a "
+        "straight piece of the workspace border, at a distance between its smallest and largest "
+        "reach); optional 3D or polygonal workspace; 0–3 hard/soft user predicates over "
         "positions, distances and params; 2D and 3D mode; each scenario sampled 3–25 times on the "
         "same Scenario object (3–10, sometimes 15–25 operations: generate / generateBatch / checker switches; maxIterations 60) with an injected "
         "perf_counter sequence.  Non-trivial = at least one returned scene needed >= 2 iterations "
@@ -176,7 +182,88 @@ def containers(draw, home, width, osize, mode2D):
 
 
 @st.composite
-def theatre(draw, g, mode2D, names, have_ego):
+def pinned(draw, g, mode2D, names):
+    """One object `at` a CONSTANT position whose extent is random (yaw range, sometimes pitch /
+    roll, or a random width / length / height), next to one face of its container (an explicit
+    `regionContainedIn`, or a straight piece of the workspace border: `edge`).  The distance to
+    that face lies between the object's smallest and largest reach in that direction, so only a
+    part of the samples fits.  Nothing but the per-sample containment requirement can reject
+    the others (the compile-time validation covers objects with constant bounds only)."""
+    cx, cy, cz = g * SPACING, draw(U(-5, 5)), (0.0 if mode2D else draw(U(-5, 5)))
+    name = f"o{len(names)}"
+    names.append(name)
+    Wd = draw(U(0.4, 1.2))
+    Ln = Wd * draw(U(2.0, 5.0))
+    Ht = draw(U(0.4, 1.5))
+    how = draw(st.sampled_from(["yaw", "yaw", "yaw", "dim", "dim", "yaw+dim"]))
+    where = draw(st.sampled_from(["container", "container", "workspace"]))
+    shape = {"k": "box"} if mode2D else {"k": draw(st.sampled_from(["box", "box", "box", "cyl", "sph"]))}
+    ck = draw(st.sampled_from(["foot", "polygon"] if mode2D else ["box", "box", "box", "sph", "foot"]))
+    # the container's own yaw (only boxes and spheroids can be turned); the workspace border
+    # used is its lower edge in y, which is the container frame turned by a quarter
+    psi = draw(st.sampled_from([0.0, draw(U(-math.pi, math.pi))])) if ck in ("box", "sph") else 0.0
+    frame = -math.pi / 2 if where == "workspace" else psi     # local +x = the tight direction
+    dims = [Wd, Ln, Ht]
+    rdims = [None, None, None]
+    yaw = const(frame)
+    ext = [Wd / 2, Ln / 2, Ht / 2]       # reach along the container's local axes
+    big = (math.hypot(Wd, Ln) / 2 + Ht) * draw(U(1.3, 2.0))
+    half = [big, big, big]               # half extents of the container
+    if how in ("yaw", "yaw+dim"):
+        # local x is the tight direction: the reach W/2 cos t + L/2 sin t grows with |t|
+        tstar = draw(U(0.15, 1.0))
+        half[0] = Wd / 2 * math.cos(tstar) + Ln / 2 * math.sin(tstar)
+        lo, hi = sorted([draw(U(0.1, 1.5)), draw(U(0.1, 1.5))])
+        # one end of the range beyond the threshold angle, the other end often within
+        a, b = draw(st.sampled_from([(-lo, tstar + hi), (-tstar - hi, lo), (lo - tstar, tstar + hi),
+                                     (-math.pi, math.pi)]))
+        yaw = rng(frame + a, frame + b)
+        if how == "yaw+dim":
+            rdims[0] = rng(Wd * 0.6, Wd * 1.6)
+    else:
+        ax = draw(st.integers(0, 0 if (ck == "sph" or where == "workspace") else
+                              1 if (mode2D or ck == "foot") else 2))
+        hi = dims[ax] * draw(U(1.5, 3.0))
+        rdims[ax] = rng(dims[ax], hi)
+        half[ax] = (dims[ax] + draw(U(0.25, 0.75)) * (hi - dims[ax])) / 2
+        if draw(st.integers(0, 2)) == 0:
+            yaw = const(frame + draw(U(-0.2, 0.2)))
+        ext[ax] = half[ax]
+    # the object sits off-centre, nearer to the tight face
+    off = [draw(U(0.0, 0.5)), draw(U(-0.3, 0.3)), 0.0 if mode2D else draw(U(-0.3, 0.3))]
+    pos = [round(cx, 3), round(cy, 3), round(cz, 3)]
+    o = {"name": name, "shape": shape, "dims": [round(d, 3) for d in dims], "rdims": rdims,
+         "pos": [const(pos[0]), const(pos[1]), const(pos[2])], "yaw": yaw,
+         "pitch": const(0.0), "roll": const(0.0),
+         "allowCollisions": draw(st.integers(0, 2)) == 0, "occluding": draw(st.integers(0, 3)) != 0}
+    if not mode2D and how == "yaw" and draw(st.integers(0, 2)) == 0:
+        o["pitch"] = rng(-draw(U(0.05, 0.4)), draw(U(0.05, 0.4)))
+        o["roll"] = draw(st.sampled_from([const(0.0), rng(-0.3, 0.3)]))
+    hc = [half[0] + off[0], half[1] + abs(off[1]), half[2] + abs(off[2])]
+    c, s = math.cos(frame), math.sin(frame)
+    cen = [pos[0] - (c * off[0] - s * off[1]), pos[1] - (s * off[0] + c * off[1]), pos[2] - off[2]]
+    if ck == "sph":
+        # a spheroid through the corner (half x, ext y, ext z) of the object's bounding box
+        hc[1], hc[2] = 3.0 * max(ext[1], hc[1] / 3), 3.0 * max(ext[2], hc[2] / 3)
+        rest = 1.0 - (ext[1] / hc[1]) ** 2 - (ext[2] / hc[2]) ** 2
+        hc[0] = hc[0] / math.sqrt(max(rest, 0.3))
+    if ck in ("box", "sph"):
+        cont = {"k": ck, "dims": [round(2 * h, 4) for h in hc], "ypr": [round(frame, 6), 0.0, 0.0],
+                "pos": [round(x, 4) for x in cen]}
+    else:
+        if frame != 0.0:
+            hc[0], hc[1] = hc[1], hc[0]      # (a quarter turn: the rectangle stays axis-aligned)
+        cont = {"k": ck, "occ": [[1]], "cuts": [[0.0, 1.0], [0.0, 1.0]],
+                "dims": [round(2 * hc[0], 4), round(2 * hc[1], 4)],
+                "pos": [round(cen[0] - hc[0], 4), round(cen[1] - hc[1], 4)], "z": pos[2], "zext": 4.0}
+    o["container"] = cont
+    # (used instead of the container when the case's workspace can be cut to it)
+    return {"kind": "pinned", "objs": [o], "centre": [cx, cy, cz], "how": how,
+            "where": where, "edge": round(pos[1] - half[0], 4)}
+
+
+@st.composite
+def theatre(draw, g, mode2D, names, have_ego, ngroups=3):
     """viewer at the group centre looking along +y, a wall across the line of sight, a target
     whose position range reaches behind / beside / beyond the wall."""
     cx, cy, cz = g * SPACING, draw(U(-5, 5)), (0.0 if mode2D else draw(U(-3, 3)))
@@ -224,13 +311,49 @@ def theatre(draw, g, mode2D, names, have_ego):
     # visible distance: ample, or cutting the target's range in two
     viewer["dist"] = round(draw(st.sampled_from([50.0, 30.0, (ylo + yhi) / 2 - cy, (ylo + yhi) / 2 - cy])), 3)
     viewer["dist"] = max(viewer["dist"], 2.0)
+    xr = rng(cx - sx, cx + sx)
+    # a long wall whose CENTRE is farther from the viewer than the target is, while its near
+    # end still crosses the lines of sight: it runs sideways away from the neighbouring groups
+    # (first / last group), or upwards / downwards (3D)
+    far = None
+    if not hidden:
+        opts = ["no"] * 4 + (["lateral"] * 3 if g in (0, ngroups - 1) else []) + \
+            ([] if mode2D else ["vertical"])
+        far = draw(st.sampled_from(opts))
+        far = None if far == "no" else far
+    if far:
+        wall["occluding"] = True
+        yhi = ylo + draw(U(0.5, 3.0))
+        viewer["dist"] = max(viewer["dist"], 30.0)
+        sgn = -1.0 if g == 0 and ngroups > 1 else 1.0 if ngroups > 1 else draw(st.sampled_from([-1.0, 1.0]))
+    if far == "lateral":
+        cover = draw(U(0.5, 2.0))
+        if vk != "point":
+            cover = min(cover, 0.5 * dw * math.tan(min(math.radians(viewer["angles"][0]) / 2, 1.0)))
+        xe = cover * (ylo - cy) / dw            # the shadow's edge where the target's range begins
+        reach = math.hypot(yhi - cy, xe + 3.0) + 1.5    # farthest point of a hidden target
+        shift = math.sqrt(max(reach + 1.0, dw + 1.0) ** 2 - dw ** 2) * draw(U(1.05, 1.4))
+        al = draw(st.sampled_from([0.0, 0.0, draw(U(-0.3, 0.3))]))
+        wall["dims"][0] = round(2 * (shift + cover), 3)
+        wall["pos"] = [const(cx + sgn * shift * math.cos(al)), const(cy + dw + sgn * shift * math.sin(al)),
+                       const(cz)]
+        wall["yaw"] = const(al)
+        xr = rng(cx - sgn * xe - draw(U(0.5, 3.0)), cx - sgn * xe + draw(U(0.5, 3.0)))
+    elif far == "vertical":
+        sgn = draw(st.sampled_from([-1.0, 1.0]))
+        cover = draw(U(2.0, 3.5))
+        reach = math.hypot(yhi - cy, sx) + 1.5
+        shift = math.sqrt(max(reach + 1.0, dw + 1.0) ** 2 - dw ** 2) * draw(U(1.05, 1.4))
+        wall["dims"][2] = round(2 * (shift + cover), 3)
+        wall["pos"][2] = const(cz + sgn * shift)
     target = {"name": tname, "shape": draw(obj_shapes(mode2D)),
               "dims": [round(draw(U(0.4, 1.6)), 3) for _ in range(3)],
-              "pos": [rng(cx - sx, cx + sx), rng(ylo, yhi),
+              "pos": [xr, rng(ylo, yhi),
                       const(0.0) if mode2D else draw(st.sampled_from([const(cz), rng(cz - 1.5, cz + 1.5)]))],
               "yaw": draw(angle()), "pitch": const(0.0) if mode2D else draw(angle(planar=None)),
               "roll": const(0.0), "allowCollisions": False, "occluding": True, "vis": vis}
-    return {"kind": "theatre", "viewer": viewer, "objs": [wall, target], "centre": [cx, cy, cz]}
+    return {"kind": "theatre", "viewer": viewer, "objs": [wall, target], "centre": [cx, cy, cz],
+            "far": far}
 
 
 def _mid(v):
@@ -284,10 +407,13 @@ def cases(draw):
     groups = []
     have_ego = False
     for g in range(ngroups):
-        if draw(st.integers(0, 1)) == 0:
+        gk = draw(st.integers(0, 6))
+        if gk < 3:
             groups.append(draw(cluster(g, mode2D, names)))
+        elif gk == 6:
+            groups.append(draw(pinned(g, mode2D, names)))
         else:
-            t = draw(theatre(g, mode2D, names, have_ego))
+            t = draw(theatre(g, mode2D, names, have_ego, ngroups))
             have_ego = have_ego or t["viewer"]["kind"] == "ego"
             groups.append(t)
     have_param = draw(st.booleans())
@@ -307,6 +433,15 @@ def cases(draw):
     ws = None
     wk = draw(st.sampled_from(["none", "none", "box", "rect", "tight", "notched", "notched"]))
     xs = [0.0 - 20, (ngroups - 1) * SPACING + 20]
+    # long walls reach sideways out of the first / last group, and upwards
+    for gr in groups:
+        if gr.get("far") == "lateral":
+            w = gr["objs"][0]
+            xs[0] = min(xs[0], w["pos"][0][1] - w["dims"][0] / 2 - 3.0)
+            xs[1] = max(xs[1], w["pos"][0][1] + w["dims"][0] / 2 + 3.0)
+    if wk == "box" and any(gr.get("far") == "vertical" for gr in groups):
+        wk = "rect"      # (the oracle's model of a box workspace is bounded in z)
+    xs = [round(xs[0], 3), round(xs[1], 3)]
     if wk == "box" and not mode2D:
         ws = {"k": "box", "dims": [xs[1] - xs[0], 60.0, 40.0], "ypr": [0.0, 0.0, 0.0],
               "pos": [(xs[0] + xs[1]) / 2, 5.0, 0.0]}
@@ -346,10 +481,24 @@ def cases(draw):
         o.pop("container", None)
         if mode2D:
             o["pos"][2] = const(0.0)
+    # a pinned object meant to sit at the workspace border: the workspace's lower edge is moved
+    # up to it within a 20 m wide slab around that group (a hole-free, non-convex polygon)
+    pin = next((gr for gr in groups if gr["kind"] == "pinned" and gr["where"] == "workspace"), None)
+    if pin is not None:
+        X = xs[1] - xs[0]
+        px = pin["centre"][0]
+        ws = {"k": "polygon", "occ": [[1, 1], [0, 1], [1, 1]],
+              "cuts": [[0.0, (px - 10.0 - xs[0]) / X, (px + 10.0 - xs[0]) / X, 1.0],
+                       [0.0, (pin["edge"] + 25.0) / 60.0, 1.0]],
+              "dims": [X, 60.0], "pos": [xs[0], -25.0], "z": 0.0, "zext": 4.0}
+        pin["objs"][0].pop("container")
+    for gr in groups:
+        if gr["kind"] == "pinned" and gr is not pin:
+            gr["where"] = "container"
     needs_ws = any(o.get("vis", "").startswith("not visible") for g in groups for o in g["objs"])
     if ws is None and needs_ws:
         # `not visible from` needs a workspace or container to sample from
-        if mode2D:
+        if mode2D or any(gr.get("far") == "vertical" for gr in groups):
             ws = {"k": "polygon", "occ": [[1]], "cuts": [[0.0, 1.0], [0.0, 1.0]],
                   "dims": [xs[1] - xs[0], 60.0], "pos": [xs[0], -25.0], "z": 0.0, "zext": 4.0}
         else:
@@ -459,10 +608,12 @@ def emit(case):
             for prop in ("yaw",) if mode2D else ("yaw", "pitch", "roll"):
                 if o[prop] != ["c", 0.0]:
                     sp.append(f"with {prop} {ev(o[prop], pre)}")
+            rd = o.get("rdims") or [None, None, None]
+            sp += [f"with {nm} {ev(r, pre) if r else repr(d)}"
+                   for nm, d, r in zip(("width", "length", "height"), o["dims"], rd)]
+            sp.append(f"with name \"{o['name']}\"")
             for l in pre[1:]:
                 add(l)
-            sp += [f"with width {o['dims'][0]!r}", f"with length {o['dims'][1]!r}",
-                   f"with height {o['dims'][2]!r}", f"with name \"{o['name']}\""]
             if o["shape"]["k"] != "box":
                 sp.append(f"with shape {inject('s', shape)}")
             if o["allowCollisions"]:
@@ -759,6 +910,10 @@ def verify_scene(case, scene, sc, reqlines, out, specs, regions, viewers, nth_vi
         S = solids[n]
         v = oreg.contains(S, BAND_REL * S.size)
         out.cls("containment-checked")
+        if specs[n].get("rdims"):
+            out.cls("containment-checked:fixed-position-random-pose",
+                    "fixed-position-random-pose:" + ("inside" if v > 0 else "near-boundary" if v == 0
+                                                     else "outside"))
         if v < 0:
             where = "container" if n in regions else "workspace"
             out.fail(f"containment:{where}:{rk}|accepted-object-sticking-out", obj=n,
@@ -791,6 +946,9 @@ def verify_scene(case, scene, sc, reqlines, out, specs, regions, viewers, nth_vi
              + (":first-visibility-requirement" if nth_vis[tname] == 0
                                       else ":later-visibility-requirement"))
         if want_visible:
+            reach = float(np.linalg.norm(T.centre - cam)) + T.circumradius_about(T.centre)
+            if any(np.linalg.norm(S.centre - cam) > reach for S in occ):
+                out.cls("vis:scene-with-occluder-centre-beyond-target")
             why = wholly_outside_view(cam, R, angles, v["dist"], T, margin)
             if why:
                 out.cls("vis:decided-outside")
@@ -798,6 +956,8 @@ def verify_scene(case, scene, sc, reqlines, out, specs, regions, viewers, nth_vi
                          pos=[float(x) for x in objs[tname].position])
             elif fully_blocked(cam, T, occ, margin):
                 out.cls("vis:decided-blocked")
+                if case["groups"][gi].get("far"):
+                    out.cls("vis:decided-blocked-by-occluder-centred-beyond-target")
                 out.fail(f"visibility:{cell}|accepted-as-visible-but-fully-occluded", target=tname,
                          pos=[float(x) for x in objs[tname].position])
             else:
@@ -822,6 +982,11 @@ def judge(case):
     out.cls("mode2D" if case["mode2D"] else "mode3D")
     for g in case["groups"]:
         out.cls("group:" + g["kind"])
+        if g["kind"] == "pinned":
+            out.cls("fixed-position-random-pose-near-edge",
+                    "fixed-position-random-pose-near-edge:" + g["how"] + ":" + g["where"])
+        if g.get("far"):
+            out.cls("occluder-centre-beyond-target", "occluder-centre-beyond-target:" + g["far"])
     try:
         src, params, reqlines = emit(case)
     except geo.Unsolved:
